@@ -216,41 +216,47 @@ PerEncode(t) == PerComplete(PerEnc(PerEmpty, t))
 (* content bit is, plus the first octet of every length determinant of an open type.  Contents of 16384 units or more are not      *)
 (* descended into.                                                                                                             *)
 PerPos(s) == IF s.o = 0 THEN 8 * Len(s.b) ELSE 8 * (Len(s.b) - 1) + s.o
+\* results: [s: encoder state after t, m: field start positions, ln: positions of the octet-aligned length determinants]
 RECURSIVE PerMarks(_, _, _)
-RECURSIVE MarksFields(_, _, _, _)
-MarksFields(s, fs, base, acc) ==
-   IF Len(fs) = 0 THEN [s |-> s, m |-> acc]
-   ELSE IF Head(fs).present THEN LET r == PerMarks(s, Head(fs).v, base) IN MarksFields(r.s, Tail(fs), base, acc \cup r.m)
-   ELSE MarksFields(s, Tail(fs), base, acc)
-RECURSIVE MarksElems(_, _, _, _, _)
-MarksElems(s, els, i, base, acc) ==
-   IF i > Len(els) THEN [s |-> s, m |-> acc]
-   ELSE LET r == PerMarks(s, els[i], base) IN MarksElems(r.s, els, i + 1, base, acc \cup r.m)
+RECURSIVE MarksFields(_, _, _, _, _)
+MarksFields(s, fs, base, m, ln) ==
+   IF Len(fs) = 0 THEN [s |-> s, m |-> m, ln |-> ln]
+   ELSE IF Head(fs).present THEN LET r == PerMarks(s, Head(fs).v, base) IN MarksFields(r.s, Tail(fs), base, m \cup r.m, ln \cup r.ln)
+   ELSE MarksFields(s, Tail(fs), base, m, ln)
+RECURSIVE MarksElems(_, _, _, _, _, _)
+MarksElems(s, els, i, base, m, ln) ==
+   IF i > Len(els) THEN [s |-> s, m |-> m, ln |-> ln]
+   ELSE LET r == PerMarks(s, els[i], base) IN MarksElems(r.s, els, i + 1, base, m \cup r.m, ln \cup r.ln)
 PerMarks(s, t, base) ==
    LET here == {base + PerPos(s)} IN
-   CASE t.k = "seq" -> LET s0 == IF t.ext THEN PutBit(s, 0) ELSE s IN MarksFields(EncPreamble(s0, t.fields), t.fields, base, here)
+   CASE t.k = "seq" -> LET s0 == IF t.ext THEN PutBit(s, 0) ELSE s IN MarksFields(EncPreamble(s0, t.fields), t.fields, base, here, {})
      [] t.k = "seqof" ->
           LET n == Len(t.v)
               inRoot == InSize(n, t)
               s0 == IF t.ext THEN PutBit(s, IF inRoot THEN 0 ELSE 1) ELSE s
-          IN IF n >= 16384 THEN [s |-> PerEnc(s, t), m |-> here]
+          IN IF n >= 16384 THEN [s |-> PerEnc(s, t), m |-> here, ln |-> {}]
              ELSE IF (t.ext /\ ~inRoot) \/ ~(FixedSize(t) \/ SizeIsCW(t))
-                  THEN LET s1 == PutULen(s0, n) IN
-                       IF n = 0 THEN [s |-> s1, m |-> here \cup {base + PerPos(PerAlign(s0))}]
-                       ELSE MarksElems(PerAlign(s1), t.v, 1, base, here \cup {base + PerPos(PerAlign(s0))})
-             ELSE IF FixedSize(t) THEN MarksElems(s0, t.v, 1, base, here)
-             ELSE MarksElems(PutSizeCW(s0, n, t), t.v, 1, base, here)
+                  THEN LET s1 == PutULen(s0, n) lp == {base + PerPos(PerAlign(s0))} IN
+                       IF n = 0 THEN [s |-> s1, m |-> here \cup lp, ln |-> lp]
+                       ELSE MarksElems(PerAlign(s1), t.v, 1, base, here \cup lp, lp)
+             ELSE IF FixedSize(t) THEN MarksElems(s0, t.v, 1, base, here, {})
+             ELSE MarksElems(PutSizeCW(s0, n, t), t.v, 1, base, here, {})
      [] t.k = "choice" -> LET s0 == IF t.ext THEN PutBit(s, 0) ELSE s
                               r == PerMarks(PutCW(s0, t.idx, t.ub.n + 1), t.v, base)
-                          IN [s |-> r.s, m |-> here \cup r.m]
+                          IN [s |-> r.s, m |-> here \cup r.m, ln |-> r.ln]
      [] t.k = "open" -> LET inner == PerComplete(PerEnc(PerEmpty, t.v))
-                            lenPos == base + PerPos(PerAlign(s))
-                        IN IF Len(inner) >= 16384 THEN [s |-> EncOpen(s, t), m |-> here]
+                            lp == {base + PerPos(PerAlign(s))}
+                        IN IF Len(inner) >= 16384 THEN [s |-> EncOpen(s, t), m |-> here, ln |-> {}]
                            ELSE LET sL == PerAlign(PutULen(s, Len(inner)))
                                     r == PerMarks(PerEmpty, t.v, base + PerPos(sL))
-                                IN [s |-> EncOpen(s, t), m |-> here \cup {lenPos} \cup r.m]
-     [] OTHER -> [s |-> PerEnc(s, t), m |-> here]
+                                IN [s |-> EncOpen(s, t), m |-> here \cup lp \cup r.m, ln |-> lp \cup r.ln]
+     [] t.k \in {"octstr", "bitstr"} ->
+          \* the length determinant of a variable-size string (aligned when the size range needs an octet or more)
+          LET s0 == IF t.ext THEN PutBit(s, 0) ELSE s IN
+          [s |-> PerEnc(s, t), m |-> here, ln |-> IF FixedSize(t) THEN {} ELSE {base + PerPos(PerAlign(s0))}]
+     [] OTHER -> [s |-> PerEnc(s, t), m |-> here, ln |-> {}]
 PerFieldStarts(t) == PerMarks(PerEmpty, t, 0).m
+PerLengthPositions(t) == PerMarks(PerEmpty, t, 0).ln
 
 (* A BIT STRING value is its first nbits bits: the unused low-order bits of the last octet (and octets beyond it) of the Go   *)
 (* representation carry no information.  PerNorm clears them, so that values can be compared as ASN.1 values.                *)
